@@ -19,6 +19,8 @@ func main() {
 		ledgerMain(os.Args[2:])
 	case "file":
 		fileMain(os.Args[2:])
+	case "shapes":
+		shapesMain(os.Args[2:])
 	case "notary":
 		notaryMain(os.Args[2:])
 	case "gossip":
